@@ -30,6 +30,10 @@ CHECKS = {
          "Histories over a 4-CID universe (options set, changed, added and removed between successive pins; sharded sets with a genuine CBOR cluster-DAG block; cluster default factors and follower mode varied; entries pre-committed by other peers) run on a real Cluster with real allocators and monitor and a model consensus over a real dsstate. After every call the whole pinset is compared: success replaces exactly that entry with the requested options and a C03-valid allocation, identical re-pin keeps allocations, every listed refusal leaves the pinset byte-identical, unpin removes exactly the entry (and the cluster-DAG and shards of a meta entry), update copies the source and leaves it intact.",
          "Consensus is a model (real dsstate behind it): commit failures of a real consensus are out of scope here (C01/C02). Expiries are +-1h from now.",
          "DESIGN.md §4 C04"),
+ "C10": ("exploration", "runtime monitor over recorded consensus submissions: up to 8 real Clusters sharing a model consensus state receive the same alert / a PeerRemove / StateSync; before/after pinsets and per-peer submissions judged against the property",
+         "Scenarios over 1-8 members, any one failing or removed, generated pinsets (arbitrary allocations, factors, options, pins created by pin-update, everywhere-pins), survivor metric states, re-pinning on/off, follower on/off, non-ping alerts only. From the recorded LogPin/LogUnpin per peer and the pinsets before/after: nothing disappears; at most one survivor acts per pin and exactly one when healthy holders fell below min and candidates exist; the new allocation satisfies the C03 predicate with the failed peer excluded and absent; all options preserved; everything else content-identical. Expired pins are unpinned by exactly one member's StateSync, live ones by none.",
+         "Members agree on peerset and trust (premise of the property). The alert handler's sequential processing is used as the 'handled' barrier; a barrier not reached in 20 s is inconclusive. Alert path with re-pinning disabled is exercised on the removal path only (the handler goroutine of such a peer stops for good).",
+         "DESIGN.md §4 C10"),
 }
 
 ALL = ["C%02d" % i for i in range(1, 19)]
